@@ -224,14 +224,29 @@ def execute(case):
             if n is not None and case.get("ntype", "int") != "int":
                 n = {"np.int64": np.int64, "np.int32": np.int32}[case["ntype"]](n)      # a count taken from another array is a NumPy scalar
                 res.cls("n-as-numpy-scalar")
-            out = getattr(df, op)(n) if n is not None else getattr(df, op)()
-            k = min(nrow, di.DEFAULT_PEEK_ROWS if n is None else n)
+            peek0 = di.DEFAULT_PEEK_ROWS
+            if n is None and len(repr(case["spec"])) % 2 == 0:
+                # the documented option is read when the call is made, not when the module was imported
+                di.DEFAULT_PEEK_ROWS = [3, 15, 1][len(repr(case["spec"])) % 3]
+                res.cls("peek-default-changed")
+            try:
+                out = getattr(df, op)(n) if n is not None else getattr(df, op)()
+                k = min(nrow, di.DEFAULT_PEEK_ROWS if n is None else n)
+            finally:
+                di.DEFAULT_PEEK_ROWS = peek0
             expected = list(range(k)) if op == "head" else list(range(nrow - k, nrow))
         elif op == "sample":
             n = case["n"]
             np.random.seed(len(repr(case)) % 1000)
-            out = df.sample(n) if n is not None else df.sample()
-            k = min(nrow, di.DEFAULT_PEEK_ROWS if n is None else n)
+            peek0 = di.DEFAULT_PEEK_ROWS
+            if n is None and len(repr(case["spec"])) % 2 == 0:
+                di.DEFAULT_PEEK_ROWS = [3, 15, 1][len(repr(case["spec"])) % 3]
+                res.cls("peek-default-changed")
+            try:
+                out = df.sample(n) if n is not None else df.sample()
+                k = min(nrow, di.DEFAULT_PEEK_ROWS if n is None else n)
+            finally:
+                di.DEFAULT_PEEK_ROWS = peek0
             rids = [c[1] for c in canon.col_cells(dict.__getitem__(out, "_rid_"))]
             if len(rids) != k or len(set(rids)) != len(rids) or rids != sorted(rids) or any(not (0 <= r < nrow) for r in rids):
                 res.violate("sample:bad-positions", f"sample({n}) of {nrow} rows gave rids {rids}")
